@@ -267,7 +267,8 @@ def native_run(stage, entry, name):
     b = subprocess.run(["cargo", "build", "--offline", "-p", "verif-replay", "--target-dir", tdir],
                        cwd=stage.dir, env=env, capture_output=True, text=True)
     if b.returncode != 0:
-        raise Undecided("native build of the staged crate failed (certificate generation):\n" + b.stderr[-2000:])
+        errs = "\n".join(l for l in b.stderr.splitlines() if l.startswith("error") or l.strip().startswith("-->"))
+        raise Undecided("native build of the staged crate failed (certificate generation):\n" + errs[:3000])
     vf = os.path.join(stage.dir, "empty.txt")
     open(vf, "w").close()
     r = subprocess.run([os.path.join(tdir, "debug", "verif-replay"), entry, name, vf], capture_output=True, text=True, timeout=600)
